@@ -91,6 +91,11 @@ func contractProps(fc *FuncContract) map[string]bool {
 	if fc.HasStates {
 		m["C06"] = true
 	}
+	if fc.LocModel {
+		m["C04"] = true
+		m["C05"] = true
+		m["C14"] = true
+	}
 	return m
 }
 
@@ -103,7 +108,7 @@ func oblServes(o *Obligation, fc *FuncContract, id string) bool {
 		}
 		return false
 	}
-	if id == "C06" || id == "C14" {
+	if id == "C06" || id == "C14" || id == "C05" {
 		// structural properties: only their own labelled obligations (the
 		// arithmetic contracts of the same function belong to other properties)
 		return false
